@@ -123,6 +123,18 @@ func RunC07(c *engine.Ctx) {
 					neg("data-truncated", key, data[:l-1], good, u)
 				}
 				neg("other-key", ks[1-ki], data, good, u)
+				// keys that differ from the right one in a single late byte (0x02: not a DES parity bit), tried after
+				// the right key has been used: nothing derived from the right key may be found again under them
+				pr, _ := rcrypto.Get(et)
+				for _, pos := range []int{len(key) - 1, len(key) - 2, pr.SeedLen - 1, pr.SeedLen, len(key) / 2, 0} {
+					if pos < 0 || pos >= len(key) {
+						continue
+					}
+					k2 := append([]byte{}, key...)
+					k2[pos] ^= 0x02
+					g.GetChecksumHash(key, data, u)
+					neg(fmt.Sprintf("other-key-differing-in-byte-%d-only", pos), k2, data, good, u)
+				}
 				for _, uu := range Usages {
 					if uu == u || (et == rcrypto.RC4 && rcrypto.RC4UsageClass(uu) == rcrypto.RC4UsageClass(u)) {
 						continue
